@@ -55,6 +55,9 @@ def atoms(expr):
     return [e]
 
 
+FACTS = None
+
+
 def classify_atom(a, sv):
     """-> ('true',) | ('eq', idx) | ('sub', idx...) | ('bad', why)"""
     a = peel(a)
@@ -71,6 +74,16 @@ def classify_atom(a, sv):
         names = [c.get("fn", "") for c in calls(a)]
         okc = ("could_match", "zip_substs", "is_ok", "as_slice", "adt_variance", "fn_def_variance", "unification_database", "Some")
         inner = [n for n in names if not any(n.endswith(x) for x in okc)]
+        # a helper of the pre-filter itself (inlining bound 1): its body only zips / could-matches what it is given
+        if inner and FACTS is not None:
+            def zipping_helper(n):
+                hb = FACTS.body(n)
+                if hb is None or hb.thir is None or "could_match" not in n:
+                    return False
+                hn = [c.get("fn", "") for c in calls(hb.thir)]
+                return any(x.endswith(("zip_substs", "could_match", "zip_with", "zip_tys")) for x in hn) and \
+                    all(any(x.endswith(y) for y in okc + ("zip_with", "zip_tys", "interner")) for x in hn)
+            inner = [n for n in inner if not zipping_helper(n)]
         is_closure_call = bool(a.get("closure")) or "Fn::call" in (a.get("fn") or "")
         if inner and not is_closure_call:
             return ("bad", "unexpected call(s) %s" % inner[:3])
@@ -86,6 +99,8 @@ def classify_atom(a, sv):
 
 
 def run(ck, facts, tier):
+    global FACTS
+    FACTS = facts
     zt = need_body(ck, facts, "C18.FLEX-TRUE", ZIP_TYS)
     rel = need_body(ck, facts, "C18.FLEX-TRUE", RELATE)
     variants = facts.variants(TYKIND) or []
@@ -343,12 +358,15 @@ def sole_filter(ck, facts):
             for a in atoms:
                 if a.get("k") == "call" and callee_matches(a, "could_match"):
                     continue
-                is_eq = (a.get("k") == "bin" and a.get("op") == "Eq") or (a.get("k") == "call" and callee_matches(a, "PartialEq::eq"))
+                is_eq = (a.get("k") == "bin" and a.get("op") in ("Eq", "Ne")) or (a.get("k") == "call" and callee_matches(a, ("PartialEq::eq", "PartialEq::ne")))
                 if is_eq and any("trait_id" in str(v) for v in expr_vars(a) | {str(x.get("name")) for x in walk(a) if x.get("k") == "field"}):
                     continue
                 bad.append(a)
+
+            def passes(a):      # the value of a test when the candidate is of the right trait and could match
+                return not ((a.get("k") == "bin" and a.get("op") == "Ne") or (a.get("k") == "call" and callee_matches(a, "PartialEq::ne")))
             try:
-                r = bool_eval(body, {id(a): True for a in atoms})
+                r = bool_eval(body, {id(a): passes(a) for a in atoms})
             except _Return as e:
                 r = e.v
             n += 1
